@@ -6,8 +6,10 @@ import (
 	"errors"
 	"fmt"
 	"net/http"
+	"runtime"
 	"strings"
 	"sync"
+	"sync/atomic"
 	"testing"
 	"time"
 	"unicode/utf16"
@@ -29,6 +31,49 @@ type c26Case struct {
 	Rate            int      `json:"rate"` // 0 = package default (20/s)
 	DefaultTTL      int      `json:"default_ttl,omitempty"`
 	Reqs            []c26Req `json:"reqs"`
+	// Simultaneous groups, run after Reqs: every request of a group is held at
+	// a harness barrier inside the authenticator callback — the last thing
+	// that runs before the route decides about the caller — and the group is
+	// released together. Credentials are derived from ConcSalt.
+	ConcSalt string     `json:"conc_salt,omitempty"`
+	Conc     []c26Group `json:"conc,omitempty"`
+}
+
+type c26Group struct {
+	Callers  []string `json:"callers"`  // each sends N requests
+	N        int      `json:"n"`        // simultaneous requests per caller
+	Resolver string   `json:"resolver"` // unresolved | identity
+}
+
+// c26Gate is a spinning barrier: goroutines that are on a processor leave it
+// within a cache-line transfer of each other. The bound only ever turns the
+// barrier off (label), it never produces a verdict.
+type c26Gate struct {
+	n        int32
+	arrived  atomic.Int32
+	timedOut atomic.Bool
+}
+
+func (g *c26Gate) wait() {
+	g.arrived.Add(1)
+	deadline := time.Now().Add(5 * time.Second)
+	for i := 0; g.arrived.Load() < g.n; i++ {
+		if i&255 == 255 {
+			runtime.Gosched()
+			if i&0xffff == 0xffff && time.Now().After(deadline) {
+				g.timedOut.Store(true)
+				return
+			}
+		}
+	}
+}
+
+// c26ConcCred derives the i-th credential of the simultaneous phase: opaque,
+// never JWS-shaped, with a marker from the hex-free alphabet.
+func c26ConcCred(salt string, i int) (cred, marker string) {
+	a := c26MarkerAlphabet
+	marker = salt + string([]byte{a[i%len(a)], a[(i/len(a))%len(a)], a[(i/len(a)/len(a))%len(a)]})
+	return marker + "-sim~" + fmt.Sprint(i), marker
 }
 
 type c26Req struct {
@@ -39,7 +84,7 @@ type c26Req struct {
 	Marker    string `json:"marker"`          // distinctive substring of Cred
 	Decoy     string `json:"decoy,omitempty"` // second credential for the duplicate-key bodies
 	DecoyMark string `json:"decoy_marker,omitempty"`
-	Body      string `json:"body"`            // body construction kind
+	Body      string `json:"body"` // body construction kind
 	NoCL      bool   `json:"no_content_length,omitempty"`
 	Resolver  string `json:"resolver"` // identity | identity-ttl | unresolved | error | unavailable
 	SleepMs   int    `json:"sleep_ms,omitempty"`
@@ -200,6 +245,39 @@ func genC26(t *rapid.T) c26Case {
 			c.Reqs = append(c.Reqs, r)
 		}
 	}
+	if !burst && rapid.IntRange(0, 2).Draw(t, "conccase") == 0 {
+		rate := c.Rate
+		if rate == 0 {
+			rate = 20
+		}
+		pool := append([]string{}, listed...)
+		for i, n := 0, rapid.IntRange(1, 10).Draw(t, "conccallers"); i < n; i++ {
+			name := fmt.Sprintf("sim-%d", i)
+			pool = append(pool, name)
+			c.Allow = append(c.Allow, name)
+		}
+		c.ConcSalt = c26GenMarker(t)
+		ng := rapid.IntRange(1, 12).Draw(t, "concgroups")
+		for g := 0; g < ng; g++ {
+			grp := c26Group{Resolver: []string{"unresolved", "identity"}[rapid.IntRange(0, 1).Draw(t, "concres")]}
+			nc := []int{1, 1, 1, 2, 3}[rapid.IntRange(0, 4).Draw(t, "concnc")]
+			first := rapid.IntRange(0, len(pool)-1).Draw(t, "conccaller")
+			for k := 0; k < nc && k < len(pool); k++ {
+				grp.Callers = append(grp.Callers, pool[(first+k)%len(pool)])
+			}
+			switch rapid.IntRange(0, 4).Draw(t, "concn") {
+			case 0, 1:
+				grp.N = rate + 1
+			case 2:
+				grp.N = rate + rapid.IntRange(2, 4).Draw(t, "concnover")
+			case 3:
+				grp.N = rapid.IntRange(2, 2*rate+4).Draw(t, "concnany")
+			default:
+				grp.N = rapid.IntRange(1, rate).Draw(t, "concnunder")
+			}
+			c.Conc = append(c.Conc, grp)
+		}
+	}
 	return c
 }
 
@@ -348,6 +426,7 @@ func runC26(c c26Case) (out lib.Outcome) {
 	if c.Prefix != "" {
 		hs.SetPrefix(c.Prefix)
 	}
+	var gates sync.Map // X-Gate value -> *c26Gate
 	if !c.NoAuthenticator {
 		hs.SetAuthenticate(func(r *http.Request) (*vgirpc.AuthContext, error) {
 			if r.Header.Get("X-Auth-Error") != "" {
@@ -361,7 +440,13 @@ func runC26(c c26Case) (out lib.Outcome) {
 			if has {
 				p = name[0]
 			}
-			return &vgirpc.AuthContext{Domain: "hdr", Authenticated: r.Header.Get("X-Caller-Unauth") == "", Principal: p}, nil
+			ctx := &vgirpc.AuthContext{Domain: "hdr", Authenticated: r.Header.Get("X-Caller-Unauth") == "", Principal: p}
+			if gid := r.Header.Get("X-Gate"); gid != "" {
+				if g, ok := gates.Load(gid); ok {
+					g.(*c26Gate).wait() // all requests of the group return from here together
+				}
+			}
+			return ctx, nil
 		})
 	}
 	enabled := false
@@ -407,6 +492,7 @@ func runC26(c c26Case) (out lib.Outcome) {
 		caller     string
 		start, end time.Time
 		resolved   int
+		conc       bool
 	}
 	var times []timing
 	var epochs []time.Time // starts of limiter windows the harness can prove
@@ -663,6 +749,169 @@ func runC26(c c26Case) (out lib.Outcome) {
 		}
 	}
 
+	// ---- simultaneous groups ----
+	gateOff := false
+	seqNo := 0
+	for gi, g := range c.Conc {
+		type job struct {
+			caller, cred, marker string
+			resp                 rawResp
+			end                  time.Time
+			resolved             int
+		}
+		n := g.N
+		if n < 1 {
+			n = 1
+		}
+		if n > 48 {
+			n = 48
+		}
+		var jobs []*job
+		for _, caller := range g.Callers {
+			for k := 0; k < n && len(jobs) < 96; k++ {
+				cred, marker := c26ConcCred(c.ConcSalt, seqNo)
+				seqNo++
+				jobs = append(jobs, &job{caller: caller, cred: cred, marker: marker})
+			}
+		}
+		if len(jobs) == 0 || c.ConcSalt == "" {
+			continue
+		}
+		if g.Resolver != "identity" {
+			g.Resolver = "unresolved"
+		}
+		gid := fmt.Sprintf("g%d", gi)
+		gate := &c26Gate{n: int32(len(jobs))}
+		gated := enabled && !c.NoAuthenticator && !gateOff // otherwise the authenticator is not reached
+		if gated {
+			gates.Store(gid, gate)
+		}
+		mu.Lock()
+		current = g.Resolver
+		callsBefore := len(calls)
+		mu.Unlock()
+		logOff := logs.Len()
+		release := make(chan struct{})
+		var wg sync.WaitGroup
+		for _, j := range jobs {
+			wg.Add(1)
+			go func(j *job) {
+				defer wg.Done()
+				body := []byte(`{"token":` + c26JSONString(j.cred) + `}`)
+				hdr := map[string]string{"Content-Type": "application/json", "X-Caller": j.caller, "X-Gate": gid}
+				<-release
+				j.resp, _, _ = doCounted(hs, "POST", c.Prefix+"/__introspect_token__", hdr, body, int64(len(body)))
+				j.end = time.Now()
+			}(j)
+		}
+		start := time.Now()
+		close(release)
+		wg.Wait()
+		gates.Delete(gid)
+		if gated {
+			if gate.timedOut.Load() {
+				gateOff = true
+				out.Label("conc:gate-timeout")
+			} else {
+				out.Label("conc:gated")
+			}
+		}
+		mu.Lock()
+		for _, cl := range calls[callsBefore:] {
+			for _, j := range jobs {
+				if cl.Arg == j.cred {
+					j.resolved++
+				}
+			}
+		}
+		stray := len(calls) - callsBefore
+		mu.Unlock()
+		logText := logs.From(logOff)
+		desc := fmt.Sprintf("simultaneous group #%d (%d requests each from callers %q, resolver=%s, rate %d/s)", gi, n, g.Callers, g.Resolver, rate)
+		var groupEnd time.Time
+		perCaller := map[string]int{}
+		for _, j := range jobs {
+			stray -= j.resolved
+			if j.end.After(groupEnd) {
+				groupEnd = j.end
+			}
+			jd := fmt.Sprintf("%s: caller %q → %d %s", desc, j.caller, j.resp.Status, lib.Short(string(j.resp.Body), 100))
+			if j.resp.Panic != "" {
+				out.Violate("C26/handler-panic", "%s: panic %s", jd, lib.Short(j.resp.Panic, 300))
+				continue
+			}
+			if bytes.Contains(j.resp.Body, []byte(j.marker)) {
+				out.Violate("C26/credential-in-response-body", "%s: response body contains the credential", jd)
+			}
+			if strings.Contains(logText, j.marker) {
+				out.Violate("C26/credential-in-log", "%s: a log line contains the credential", jd)
+			}
+			authorised := enabled && !c.NoAuthenticator && allowSet[j.caller]
+			switch {
+			case !enabled:
+				if j.resolved != 0 {
+					out.Violate("C26/disabled-resolved", "%s: resolver consulted while disabled", jd)
+				}
+				if j.resp.Status != http.StatusNotFound {
+					out.Violate("C26/disabled-status", "%s: want the definitive 404", jd)
+				}
+			case !authorised:
+				if j.resolved != 0 {
+					out.Violate("C26/unauthorised-resolved", "%s: resolver consulted for a caller that may not introspect", jd)
+				}
+				if j.resp.Status != http.StatusForbidden {
+					out.Violate("C26/unauthorised-status", "%s: want 403", jd)
+				}
+			default:
+				perCaller[j.caller]++
+				times = append(times, timing{caller: j.caller, start: start, end: j.end, resolved: j.resolved, conc: true})
+				switch {
+				case j.resp.Status == http.StatusTooManyRequests:
+					if j.resolved != 0 {
+						out.Violate("C26/rate-limited-resolved", "%s: rate limited but the resolver was consulted", jd)
+					}
+				case j.resolved != 1:
+					out.Violate("C26/resolver-not-consulted", "%s: an admitted opaque credential must reach the resolver exactly once; got %d call(s)", jd, j.resolved)
+				case g.Resolver == "unresolved":
+					if j.resp.Status != http.StatusNotFound {
+						out.Violate("C26/unresolvable-status-resolver-unresolved", "%s: want the fixed 404", jd)
+					} else if fixed404 == nil {
+						fixed404 = j.resp.Body
+					} else if !bytes.Equal(fixed404, j.resp.Body) {
+						out.Violate("C26/404-body-varies-resolver-unresolved", "%s: 404 body differs from an earlier unresolved answer %q", jd, lib.Short(string(fixed404), 120))
+					}
+				default:
+					if j.resp.Status != http.StatusOK {
+						out.Violate("C26/resolved-answer", "%s: want 200", jd)
+					}
+				}
+			}
+		}
+		if stray != 0 {
+			out.Violate("C26/resolver-not-consulted", "%s: %d resolver call(s) with an argument that is no request's credential", desc, stray)
+		}
+		if len(perCaller) > 0 {
+			// a proven window starts here if nothing was admitted before, or after a second of silence
+			if firstAuthorised || (!lastEnd.IsZero() && start.Sub(lastEnd) >= time.Second) {
+				epochs = append(epochs, start)
+			}
+			firstAuthorised = false
+			out.Label("conc:authorised-group")
+			for _, k := range perCaller {
+				if k > rate {
+					out.Label("conc:group-over-rate")
+					out.NonTrivial = true
+				}
+			}
+			if len(perCaller) > 1 {
+				out.Label("conc:multi-caller-group")
+			}
+		}
+		if !groupEnd.IsZero() {
+			lastEnd = groupEnd
+		}
+	}
+
 	// ---- rate clauses (per caller, counted at the resolver) ----
 	if enabled && len(times) > 0 {
 		callers := map[string]bool{}
@@ -681,20 +930,29 @@ func runC26(c c26Case) (out lib.Outcome) {
 				out.Violate("C26/rate-total", "caller %q: %d introspections reached the resolver in %v at %d/s (bound %d)", caller, sum, total, rate, bound)
 			}
 			for ei, ep := range epochs {
-				n, reqs := 0, 0
+				n, reqs, conc := 0, 0, 0
 				for _, tm := range times {
 					if tm.caller == caller && !tm.start.Before(ep) && tm.end.Sub(ep) < time.Second {
 						n += tm.resolved
 						reqs++
+						if tm.conc {
+							conc++
+						}
 					}
 				}
 				if reqs > rate {
 					out.Label("burst-over-rate")
+					if conc > 1 {
+						out.Label("conc:over-rate-in-proven-window")
+					}
 				}
 				if n > rate {
 					clause := "rate-fresh-window"
 					if ei > 0 {
 						clause = "rate-after-idle"
+					}
+					if conc > 1 {
+						clause += "-simultaneous"
 					}
 					out.Violate("C26/"+clause, "caller %q: %d introspections reached the resolver within one second of a fresh window at %d/s (%d requests sent)", caller, n, rate, reqs)
 				}
@@ -720,11 +978,12 @@ func c26Class(r c26Req) string {
 
 var propC26 = lib.Prop[c26Case]{
 	ID: "C26",
-	Rule: "per case a fresh HttpServer (enabled 9/10; allowlists incl. blank-only; rate 1/2/3/5/default; prefix) and 1-10 introspection requests (+ optional back-to-back burst of rate+1..2*rate+6 requests per listed caller, 1 in 25 bursts after 1.05 / 2.1 / 3.1 s of idleness): callers anonymous / authenticated-unlisted (case, space, NUL variants) / named-but-unauthenticated / rejected by the authenticator / listed; credentials opaque, dotted-non-JWS, JWS-shaped (6 shapes incl. empty signature and multi-KB), 4095/4096/4097+ chars, unicode up to 5000 runes; bodies plain/extra fields/fully \\u-escaped, ambiguous (upper-case key, duplicate keys, >8 KiB padding, BOM, trailing data), 13 wrong shapes; with and without Content-Length; resolver outcomes identity(+ttl)/unresolved/error/AuthUnavailable. slog default replaced by a buffer. " +
+	Rule: "per case a fresh HttpServer (enabled 9/10; allowlists incl. blank-only; rate 1/2/3/5/default; prefix) and 1-10 introspection requests (+ optional back-to-back burst of rate+1..2*rate+6 requests per listed caller, 1 in 25 bursts after 1.05 / 2.1 / 3.1 s of idleness): callers anonymous / authenticated-unlisted (case, space, NUL variants) / named-but-unauthenticated / rejected by the authenticator / listed; credentials opaque, dotted-non-JWS, JWS-shaped (6 shapes incl. empty signature and multi-KB), 4095/4096/4097+ chars, unicode up to 5000 runes; bodies plain/extra fields/fully \\u-escaped, ambiguous (upper-case key, duplicate keys, >8 KiB padding, BOM, trailing data), 13 wrong shapes; with and without Content-Length; resolver outcomes identity(+ttl)/unresolved/error/AuthUnavailable. slog default replaced by a buffer. One non-burst case in three then runs 1-12 simultaneous groups: 1-3 callers (the listed ones, which may already have used part of their budget, or 1-10 further allowlisted principals) each send N plain requests (N = rate+1, rate+2..4, 2..2*rate+4 or 1..rate) that are all held at a spinning harness barrier inside the authenticator callback — the last user code before the route decides about the caller — and released together; per-caller resolver invocations are counted by credential and judged by the same exact clause (at most `rate` within one second of a window the harness can prove fresh). " +
 		"Non-trivial: an allowlisted caller presenting a JWS-shaped or over-limit credential.",
-	Gen:          genC26,
-	Run:          runC26,
-	Essential:    []string{"listed:jws", "listed:oversize", "listed:plain", "listed:bad-shape", "req:anonymous", "req:unlisted", "req:named-but-unauthenticated", "req:disabled", "req:resolved", "req:unresolved", "req:resolver-error", "req:rate-limited", "burst-over-rate", "rate-after-idle"},
+	Gen: genC26,
+	Run: runC26,
+	Essential: []string{"listed:jws", "listed:oversize", "listed:plain", "listed:bad-shape", "req:anonymous", "req:unlisted", "req:named-but-unauthenticated", "req:disabled", "req:resolved", "req:unresolved", "req:resolver-error", "req:rate-limited", "burst-over-rate", "rate-after-idle",
+		"conc:gated", "conc:authorised-group", "conc:group-over-rate", "conc:multi-caller-group", "conc:over-rate-in-proven-window"},
 	EssentialMin: 1500,
 	Assumptions: []string{
 		"rate clauses count resolver invocations per caller: at most rate within one second of a window the harness can prove fresh (first introspection of a server, or after >= 1 s without any request), and at most rate*(floor(duration)+2) over a whole case; a slow machine only weakens these bounds",
